@@ -598,20 +598,15 @@ func vRunBusPlan(pl vBusPlan) *vBusHistory {
 					defer l.mu.Unlock()
 					n := len(l.rec.Recv)
 					if n == 0 {
-						// nothing observed so far: wait only if some accepted Publish
-						// was called after this subscription returned (then the
-						// subscriber must still receive it)
-						for _, ps := range h.Pubs {
-							for _, p := range ps {
-								if !p.Err && p.Call > l.rec.SubRet {
-									return false
-								}
-							}
-						}
-						return true
+						// nothing observed yet: whether anything is owed to this
+						// subscriber (late publishes, the backlog of a stalled
+						// original, ...) is the checker's business; here we only give
+						// it time: the wait ends when the whole run has been quiet
+						// for the stall period below
+						return false
 					}
 					return l.rec.Recv[n-1].Ev == lastEv
-				}, 2*time.Second)
+				}, 400*time.Millisecond)
 			}
 		}
 		h.BusCloseCall = clk.stamp()
